@@ -4,6 +4,7 @@ import BbRe.Lemmas.OutputsListing
 import BbRe.Lemmas.OutputsTree
 import BbRe.Lemmas.OutputsErrors
 import BbRe.Lemmas.OutputsParents
+import BbRe.Lemmas.OutputsDecode
 /-!
 # C10 — reported outputs are exactly what the action produced
 
@@ -30,7 +31,10 @@ Property theorems about `Model/Outputs.lean`, the transcription of
   directory entry; `cleanDir env d` — no unreadable directory and no file whose CAS write fails
   anywhere below `d`;
 * `DirAt q root` — location `q` below `root` is a directory; `SameShape x x'` — a directory stayed
-  a directory, anything else stayed exactly what it was; `q <+: l` — `q` is a prefix of `l`.
+  a directory, anything else stayed exactly what it was; `q <+: l` — `q` is a prefix of `l`;
+* `decodeMsg m` — the directory a `Directory` message describes (following the references);
+  `canonNode d` — what REv2 can express about `d`: regular files, then subdirectories
+  (recursively), then symlinks with normalised targets, special files left out.
 -/
 namespace BbRe.Properties.C10
 open BbRe.Outputs BbRe.Lemmas.Outputs
@@ -76,20 +80,6 @@ example : resolveRel [[97]] [46, 46, 47, 98, 47, 47, 46, 47, 99, 47] = .ok [[98]
 example : resolveRel [[97]] [46, 46, 47, 46, 46] = .error .escapes := by rfl
 example : resolveRel [] [47, 97] = .error .absolute := by rfl
 example : resolveRel [] [97, 0] = .error .nul := by rfl
-
-theorem registerAll_ok_iff (wd : List Name) (h : Hierarchy) (ps : List Str) :
-    (∃ h', registerAll wd h ps = .ok h') ↔ ∀ p ∈ ps, ∃ cs, resolveRel wd p = .ok cs := by
-  induction ps generalizing h with
-  | nil => simp [registerAll]
-  | cons p ps ih =>
-    simp only [registerAll, Hierarchy.register, List.mem_cons, forall_eq_or_imp]
-    cases hr : resolveRel wd p with
-    | error e => simp
-    | ok cs =>
-      simp only [Except.ok.injEq, exists_eq', true_and]
-      cases splitLast cs with
-      | none => exact ih _
-      | some il => exact ih _
 
 /-- `NewOutputHierarchy` returns a hierarchy iff the working directory and every output path stay
 inside the input root; otherwise it returns an error and no hierarchy (no output node) at all. -/
@@ -410,6 +400,16 @@ theorem tree_root_exact (env : Env) (es : Entries) (m : DirMsg)
   simp only [↓reduceIte, Option.some.injEq] at h
   subst h
   simpa [DirMsg.files, DirMsg.dirs, DirMsg.symlinks] using encodeEntries_lists env es (.mk [] [] [])
+
+/-- **Decoding reproduces the tree**: for every directory tree (all directories readable, CAS
+fault-free) the root message exists and decoding it - following the child references, which by
+`tree_wellformed` are all present in the Tree - yields the directory itself (in the canonical
+form `canonNode`). -/
+theorem tree_decodes (d : Node) (h : cleanDir noFaults d = true) :
+    ∃ m, encodeDir noFaults d = some m ∧ decodeMsg m = canonNode d :=
+  pdecode_all d h
+
+example : cleanDir noFaults (.dir true [([97], .dir true [([98], .file true 3)]), ([99], .special)]) = true := rfl
 
 example : fileOf noFaults ([97], .file true 5) = some ([97], 5, true) := rfl
 example : dirOf noFaults ([97], .dir true [([98], .special)]) = some ([97], .mk [] [] []) := rfl
